@@ -801,6 +801,14 @@ func (s *state) Write(b []byte) (n int, err error) {
 
 	for i, c := range b {
 		if c == '\n' {
+			if !s.wantDetail {
+				// Outside of the detail mode the text is the error message
+				// itself: every newline stays where it is, including leading
+				// and trailing ones, so that %v/%s render exactly Error().
+				s.multiLine = true
+				s.notEmpty = true
+				continue
+			}
 			//if s.needNewline > 0 {
 			//	for i := 0; i < s.needNewline-1; i++ {
 			//		s.buf.Write(detailSep[:len(sep)-1])
